@@ -23,6 +23,32 @@ def vecForce {K : Type} {n : ℕ} (f : Fin n → K) : VecBox n K :=
 @[simp] theorem vecForce_v {K : Type} {n : ℕ} (f : Fin n → K) : (vecForce f).v = f := by
   funext i; simp [vecForce]
 
+/-! Box-level primitives.  They are `@[noinline]` functions of *values*, so their arguments are
+evaluated exactly once before the call (the compiler cannot move the argument computations into
+the entry-wise closures). -/
+section Prims
+variable {K : Type} [Field K] {l m n p : ℕ}
+@[noinline] def mulB (A : MatBox l m K) (B : MatBox m n K) : MatBox l n K := boxForce (A.M * B.M)
+@[noinline] def addB (A B : MatBox m n K) : MatBox m n K := boxForce (A.M + B.M)
+@[noinline] def smulB (c : K) (A : MatBox m n K) : MatBox m n K := boxForce (c • A.M)
+@[noinline] def transposeB (A : MatBox m n K) : MatBox n m K := ⟨A.Mᵀ⟩
+@[noinline] def rowScaleB (d : Fin m → K) (A : MatBox m n K) : MatBox m n K :=
+  boxForce (Matrix.of fun i j => d i * A.M i j)
+@[noinline] def colScaleB (d : Fin n → K) (A : MatBox m n K) : MatBox m n K :=
+  boxForce (Matrix.of fun i j => d j * A.M i j)
+@[noinline] def bdiagB (A : MatBox m m K) (B : MatBox n n K) : MatBox (m + n) (m + n) K := ⟨bdiag A.M B.M⟩
+@[noinline] def browB (A : MatBox m n K) (B : MatBox m p K) : MatBox m (n + p) K := ⟨brow A.M B.M⟩
+@[noinline] def bcolB (A : MatBox m n K) (B : MatBox p n K) : MatBox (m + p) n K := ⟨bcol A.M B.M⟩
+@[noinline] def topRowsB (B : MatBox (m + n) p K) : MatBox m p K := ⟨topRows B.M⟩
+@[noinline] def botRowsB (B : MatBox (m + n) p K) : MatBox n p K := ⟨botRows B.M⟩
+@[noinline] def leftColsB (B : MatBox p (m + n) K) : MatBox p m K := ⟨leftCols B.M⟩
+@[noinline] def rightColsB (B : MatBox p (m + n) K) : MatBox p n K := ⟨rightCols B.M⟩
+@[noinline] def diagOfB (A : MatBox m n K) : VecBox m K := vecForce (diagOf A.M)
+@[noinline] def appendB (x : VecBox m K) (y : VecBox n K) : VecBox (m + n) K := ⟨Fin.append x.v y.v⟩
+@[noinline] def lrDiagB (c : K) (dS : VecBox m K) (R Vt : MatBox m n K) : VecBox m K :=
+  vecForce fun i => dS.v i + c * ∑ j, R.M i j * Vt.M i j
+end Prims
+
 namespace MExpr
 variable {K : Type} [Field K]
 
@@ -31,153 +57,100 @@ def denoteB : {m n : ℕ} → MExpr K m n → MatBox m n K
   | _, _, scaledId _ _ c => ⟨c • (1 : Mat _ _ K)⟩
   | _, _, diag _ d => ⟨Matrix.diagonal d⟩
   | _, _, tri f => ⟨f.denote⟩
-  | _, _, triFact _ s f => boxForce ((s.val : K) • (f.denote * f.denoteᵀ))
+  | _, _, triFact _ s f => smulB (s.val : K) (mulB ⟨f.denote⟩ ⟨f.denoteᵀ⟩)
   | _, _, denseDef _ _ A _ => ⟨A⟩
   | _, _, lu inverse A X => ⟨if inverse then X else A⟩
   | _, _, denseSym A _ _ => ⟨A⟩
   | _, _, orth Q => ⟨Q⟩
-  | _, _, scaledOrth c Q => ⟨c • Q⟩
-  | _, _, eigSym _ Q ev => boxForce (Q * Matrix.diagonal ev * Qᵀ)
+  | _, _, scaledOrth c Q => smulB c ⟨Q⟩
+  | _, _, eigSym _ Q ev => mulB (colScaleB ev ⟨Q⟩) ⟨Qᵀ⟩
   | _, _, rect A => ⟨A⟩
-  | _, _, blockDiag _ a b =>
-      let A := denoteB a
-      let B := denoteB b
-      ⟨bdiag A.M B.M⟩
-  | _, _, blockRow a b =>
-      let A := denoteB a
-      let B := denoteB b
-      ⟨brow A.M B.M⟩
-  | _, _, blockCol a b =>
-      let A := denoteB a
-      let B := denoteB b
-      ⟨bcol A.M B.M⟩
-  | _, _, prod _ a b =>
-      let A := denoteB a
-      let B := denoteB b
-      boxForce (A.M * B.M)
+  | _, _, blockDiag _ a b => bdiagB (denoteB a) (denoteB b)
+  | _, _, blockRow a b => browB (denoteB a) (denoteB b)
+  | _, _, blockCol a b => bcolB (denoteB a) (denoteB b)
+  | _, _, prod _ a b => mulB (denoteB a) (denoteB b)
   | _, _, lowRank _ s U V S Kin _ =>
-      let dS := denoteB S
-      let dU := denoteB U
-      let dK := denoteB Kin
-      let dV := denoteB V
-      let UK := boxForce (dU.M * dK.M)
-      boxForce (dS.M + (s.val : K) • (UK.M * dV.M))
+      addB (denoteB S) (smulB (s.val : K) (mulB (mulB (denoteB U) (denoteB Kin)) (denoteB V)))
+
+theorem colScale_eq {m n : ℕ} (d : Fin n → K) (A : Mat m n K) :
+    (Matrix.of fun i j => d j * A i j) = A * Matrix.diagonal d := by
+  ext i j; simp [Matrix.mul_diagonal, mul_comm]
+
+theorem rowScale_eq {m n : ℕ} (d : Fin m → K) (A : Mat m n K) :
+    (Matrix.of fun i j => d i * A i j) = Matrix.diagonal d * A := by
+  ext i j; simp [Matrix.diagonal_mul]
 
 theorem denoteB_M {m n : ℕ} (e : MExpr K m n) : (denoteB e).M = denote e := by
   induction e with
-  | blockDiag k a b iha ihb => simp [denoteB, denote, iha, ihb]
-  | blockRow a b iha ihb => simp [denoteB, denote, iha, ihb]
-  | blockCol a b iha ihb => simp [denoteB, denote, iha, ihb]
-  | prod pk a b iha ihb => simp [denoteB, denote, iha, ihb]
+  | blockDiag k a b iha ihb => simp [denoteB, denote, bdiagB, iha, ihb]
+  | blockRow a b iha ihb => simp [denoteB, denote, browB, iha, ihb]
+  | blockCol a b iha ihb => simp [denoteB, denote, bcolB, iha, ihb]
+  | prod pk a b iha ihb => simp [denoteB, denote, mulB, iha, ihb]
   | lowRank kind s U V S Kin C ihU ihV ihS ihK ihC =>
-    simp [denoteB, denote, ihU, ihV, ihS, ihK]
-  | _ => simp [denoteB, denote]
-
-def TriF.leftMulB {n p : ℕ} (f : TriF n K) (B : MatBox n p K) : MatBox n p K :=
-  boxForce (f.denote * B.M)
-def TriF.rightMulB {n p : ℕ} (B : MatBox p n K) (f : TriF n K) : MatBox p n K :=
-  boxForce (B.M * f.denote)
+    simp [denoteB, denote, addB, smulB, mulB, ihU, ihV, ihS, ihK]
+  | _ => simp [denoteB, denote, smulB, mulB, colScaleB, colScale_eq]
 
 def leftMulB : {m n : ℕ} → MExpr K m n → {p : ℕ} → MatBox n p K → MatBox m p K
   | _, _, identity _, _, B => B
-  | _, _, scaledId _ _ c, _, B => ⟨c • B.M⟩
-  | _, _, diag _ d, _, B => ⟨Matrix.of fun i j => d i * B.M i j⟩
-  | _, _, tri f, _, B => TriF.leftMulB f B
-  | _, _, triFact _ s f, _, B =>
-      let t := TriF.leftMulB f.T B
-      let u := TriF.leftMulB f t
-      ⟨(s.val : K) • u.M⟩
-  | _, _, denseDef _ _ A _, _, B => boxForce (A * B.M)
-  | _, _, lu inverse A X, _, B => boxForce ((if inverse then X else A) * B.M)
-  | _, _, denseSym A _ _, _, B => boxForce (A * B.M)
-  | _, _, orth Q, _, B => boxForce (Q * B.M)
-  | _, _, scaledOrth c Q, _, B =>
-      let t := boxForce (Q * B.M)
-      ⟨c • t.M⟩
-  | _, _, eigSym _ Q ev, _, B =>
-      let t := boxForce (Qᵀ * B.M)
-      let u := boxForce (Matrix.of fun i j => ev i * t.M i j)
-      boxForce (Q * u.M)
-  | _, _, rect A, _, B => boxForce (A * B.M)
-  | _, _, blockDiag _ a b, _, B =>
-      let x := leftMulB a ⟨topRows B.M⟩
-      let y := leftMulB b ⟨botRows B.M⟩
-      ⟨bcol x.M y.M⟩
-  | _, _, blockRow a b, _, B =>
-      let x := leftMulB a ⟨topRows B.M⟩
-      let y := leftMulB b ⟨botRows B.M⟩
-      boxForce (x.M + y.M)
-  | _, _, blockCol a b, _, B =>
-      let x := leftMulB a B
-      let y := leftMulB b B
-      ⟨bcol x.M y.M⟩
+  | _, _, scaledId _ _ c, _, B => smulB c B
+  | _, _, diag _ d, _, B => rowScaleB d B
+  | _, _, tri f, _, B => mulB ⟨f.denote⟩ B
+  | _, _, triFact _ s f, _, B => smulB (s.val : K) (mulB ⟨f.denote⟩ (mulB ⟨f.T.denote⟩ B))
+  | _, _, denseDef _ _ A _, _, B => mulB ⟨A⟩ B
+  | _, _, lu inverse A X, _, B => mulB ⟨if inverse then X else A⟩ B
+  | _, _, denseSym A _ _, _, B => mulB ⟨A⟩ B
+  | _, _, orth Q, _, B => mulB ⟨Q⟩ B
+  | _, _, scaledOrth c Q, _, B => smulB c (mulB ⟨Q⟩ B)
+  | _, _, eigSym _ Q ev, _, B => mulB ⟨Q⟩ (rowScaleB ev (mulB ⟨Qᵀ⟩ B))
+  | _, _, rect A, _, B => mulB ⟨A⟩ B
+  | _, _, blockDiag _ a b, _, B => bcolB (leftMulB a (topRowsB B)) (leftMulB b (botRowsB B))
+  | _, _, blockRow a b, _, B => addB (leftMulB a (topRowsB B)) (leftMulB b (botRowsB B))
+  | _, _, blockCol a b, _, B => bcolB (leftMulB a B) (leftMulB b B)
   | _, _, prod _ a b, _, B => leftMulB a (leftMulB b B)
   | _, _, lowRank _ s U V S Kin _, _, B =>
-      let x := leftMulB S B
-      let y := leftMulB U (leftMulB Kin (leftMulB V B))
-      boxForce (x.M + (s.val : K) • y.M)
+      addB (leftMulB S B) (smulB (s.val : K) (leftMulB U (leftMulB Kin (leftMulB V B))))
 
 theorem leftMulB_M {m n : ℕ} (e : MExpr K m n) :
     ∀ {p : ℕ} (B : MatBox n p K), (leftMulB e B).M = leftMul e B.M := by
   induction e with
-  | blockDiag k a b iha ihb => intro p B; simp [leftMulB, leftMul, iha, ihb]
-  | blockRow a b iha ihb => intro p B; simp [leftMulB, leftMul, iha, ihb]
-  | blockCol a b iha ihb => intro p B; simp [leftMulB, leftMul, iha, ihb]
+  | blockDiag k a b iha ihb => intro p B; simp [leftMulB, leftMul, bcolB, topRowsB, botRowsB, iha, ihb]
+  | blockRow a b iha ihb => intro p B; simp [leftMulB, leftMul, addB, topRowsB, botRowsB, iha, ihb]
+  | blockCol a b iha ihb => intro p B; simp [leftMulB, leftMul, bcolB, iha, ihb]
   | prod pk a b iha ihb => intro p B; simp [leftMulB, leftMul, iha, ihb]
   | lowRank kind s U V S Kin C ihU ihV ihS ihK ihC =>
-    intro p B; simp [leftMulB, leftMul, ihU, ihV, ihS, ihK]
-  | _ => intro p B; simp [leftMulB, leftMul, TriF.leftMulB, TriF.leftMul]
+    intro p B; simp [leftMulB, leftMul, addB, smulB, ihU, ihV, ihS, ihK]
+  | _ => intro p B; simp [leftMulB, leftMul, TriF.leftMul, smulB, mulB, rowScaleB]
 
 def rightMulB : {m n : ℕ} → {p : ℕ} → MatBox p m K → MExpr K m n → MatBox p n K
   | _, _, _, B, identity _ => B
-  | _, _, _, B, scaledId _ _ c => ⟨c • B.M⟩
-  | _, _, _, B, diag _ d => ⟨Matrix.of fun i j => d j * B.M i j⟩
-  | _, _, _, B, tri f => TriF.rightMulB B f
-  | _, _, _, B, triFact _ s f =>
-      let t := TriF.rightMulB B f
-      let u := TriF.rightMulB t f.T
-      ⟨(s.val : K) • u.M⟩
-  | _, _, _, B, denseDef _ _ A _ => boxForce (B.M * A)
-  | _, _, _, B, lu inverse A X => boxForce (B.M * (if inverse then X else A))
-  | _, _, _, B, denseSym A _ _ => boxForce (B.M * A)
-  | _, _, _, B, orth Q => boxForce (B.M * Q)
-  | _, _, _, B, scaledOrth c Q =>
-      let t := boxForce (B.M * Q)
-      ⟨c • t.M⟩
-  | _, _, _, B, eigSym _ Q ev =>
-      let t := boxForce (B.M * Q)
-      let u := boxForce (Matrix.of fun i j => ev j * t.M i j)
-      boxForce (u.M * Qᵀ)
-  | _, _, _, B, rect A => boxForce (B.M * A)
-  | _, _, _, B, blockDiag _ a b =>
-      let x := rightMulB ⟨leftCols B.M⟩ a
-      let y := rightMulB ⟨rightCols B.M⟩ b
-      ⟨brow x.M y.M⟩
-  | _, _, _, B, blockRow a b =>
-      let x := rightMulB B a
-      let y := rightMulB B b
-      ⟨brow x.M y.M⟩
-  | _, _, _, B, blockCol a b =>
-      let x := rightMulB ⟨leftCols B.M⟩ a
-      let y := rightMulB ⟨rightCols B.M⟩ b
-      boxForce (x.M + y.M)
+  | _, _, _, B, scaledId _ _ c => smulB c B
+  | _, _, _, B, diag _ d => colScaleB d B
+  | _, _, _, B, tri f => mulB B ⟨f.denote⟩
+  | _, _, _, B, triFact _ s f => smulB (s.val : K) (mulB (mulB B ⟨f.denote⟩) ⟨f.T.denote⟩)
+  | _, _, _, B, denseDef _ _ A _ => mulB B ⟨A⟩
+  | _, _, _, B, lu inverse A X => mulB B ⟨if inverse then X else A⟩
+  | _, _, _, B, denseSym A _ _ => mulB B ⟨A⟩
+  | _, _, _, B, orth Q => mulB B ⟨Q⟩
+  | _, _, _, B, scaledOrth c Q => smulB c (mulB B ⟨Q⟩)
+  | _, _, _, B, eigSym _ Q ev => mulB (colScaleB ev (mulB B ⟨Q⟩)) ⟨Qᵀ⟩
+  | _, _, _, B, rect A => mulB B ⟨A⟩
+  | _, _, _, B, blockDiag _ a b => browB (rightMulB (leftColsB B) a) (rightMulB (rightColsB B) b)
+  | _, _, _, B, blockRow a b => browB (rightMulB B a) (rightMulB B b)
+  | _, _, _, B, blockCol a b => addB (rightMulB (leftColsB B) a) (rightMulB (rightColsB B) b)
   | _, _, _, B, prod _ a b => rightMulB (rightMulB B a) b
   | _, _, _, B, lowRank _ s U V S Kin _ =>
-      let x := rightMulB B S
-      let t := rightMulB B U
-      let y := rightMulB (rightMulB ⟨(s.val : K) • t.M⟩ Kin) V
-      boxForce (x.M + y.M)
+      addB (rightMulB B S) (rightMulB (rightMulB (smulB (s.val : K) (rightMulB B U)) Kin) V)
 
 theorem rightMulB_M {m n : ℕ} (e : MExpr K m n) :
     ∀ {p : ℕ} (B : MatBox p m K), (rightMulB B e).M = rightMul B.M e := by
   induction e with
-  | blockDiag k a b iha ihb => intro p B; simp [rightMulB, rightMul, iha, ihb]
-  | blockRow a b iha ihb => intro p B; simp [rightMulB, rightMul, iha, ihb]
-  | blockCol a b iha ihb => intro p B; simp [rightMulB, rightMul, iha, ihb]
+  | blockDiag k a b iha ihb => intro p B; simp [rightMulB, rightMul, browB, leftColsB, rightColsB, iha, ihb]
+  | blockRow a b iha ihb => intro p B; simp [rightMulB, rightMul, browB, iha, ihb]
+  | blockCol a b iha ihb => intro p B; simp [rightMulB, rightMul, addB, leftColsB, rightColsB, iha, ihb]
   | prod pk a b iha ihb => intro p B; simp [rightMulB, rightMul, iha, ihb]
   | lowRank kind s U V S Kin C ihU ihV ihS ihK ihC =>
-    intro p B; simp [rightMulB, rightMul, ihU, ihV, ihS, ihK]
-  | _ => intro p B; simp [rightMulB, rightMul, TriF.rightMulB, TriF.rightMul]
+    intro p B; simp [rightMulB, rightMul, addB, smulB, ihU, ihV, ihS, ihK]
+  | _ => intro p B; simp [rightMulB, rightMul, TriF.rightMul, smulB, mulB, colScaleB]
 
 def diagonalB : {m n : ℕ} → MExpr K m n → VecBox m K
   | _, _, identity _ => ⟨fun _ => 1⟩
@@ -185,32 +158,26 @@ def diagonalB : {m n : ℕ} → MExpr K m n → VecBox m K
   | _, _, diag _ d => ⟨d⟩
   | _, _, tri f => ⟨f.diagonal⟩
   | _, _, scaledOrth c Q => ⟨fun i => c * Q i i⟩
-  | _, _, blockDiag _ a b =>
-      let x := diagonalB a
-      let y := diagonalB b
-      ⟨Fin.append x.v y.v⟩
+  | _, _, blockDiag _ a b => appendB (diagonalB a) (diagonalB b)
   | _, _, lowRank _ s U V S Kin _ =>
-      let dS := diagonalB S
-      let R := rightMulB (denoteB U) Kin
-      let Vt := denoteB (T V)
-      vecForce fun i => dS.v i + (s.val : K) * ∑ j, R.M i j * Vt.M i j
-  | _, _, triFact pd s f => let D := denoteB (triFact pd s f); ⟨diagOf D.M⟩
+      lrDiagB (s.val : K) (diagonalB S) (rightMulB (denoteB U) Kin) (denoteB (T V))
+  | _, _, triFact pd s f => diagOfB (denoteB (triFact pd s f))
   | _, _, denseDef _ _ A _ => ⟨diagOf A⟩
   | _, _, lu inverse A X => ⟨diagOf (if inverse then X else A)⟩
   | _, _, denseSym A _ _ => ⟨diagOf A⟩
   | _, _, orth Q => ⟨diagOf Q⟩
-  | _, _, eigSym pd Q ev => let D := denoteB (eigSym pd Q ev); ⟨diagOf D.M⟩
+  | _, _, eigSym pd Q ev => diagOfB (denoteB (eigSym pd Q ev))
   | _, _, rect A => ⟨diagOf A⟩
-  | _, _, blockRow a b => let D := denoteB (blockRow a b); ⟨diagOf D.M⟩
-  | _, _, blockCol a b => let D := denoteB (blockCol a b); ⟨diagOf D.M⟩
-  | _, _, prod pk a b => let D := denoteB (prod pk a b); ⟨diagOf D.M⟩
+  | _, _, blockRow a b => diagOfB (denoteB (blockRow a b))
+  | _, _, blockCol a b => diagOfB (denoteB (blockCol a b))
+  | _, _, prod pk a b => diagOfB (denoteB (prod pk a b))
 
 theorem diagonalB_v {m n : ℕ} (e : MExpr K m n) : (diagonalB e).v = diagonal e := by
   induction e with
-  | blockDiag k a b iha ihb => simp [diagonalB, diagonal, iha, ihb]
+  | blockDiag k a b iha ihb => simp [diagonalB, diagonal, appendB, iha, ihb]
   | lowRank kind s U V S Kin C ihU ihV ihS ihK ihC =>
-    simp [diagonalB, diagonal, ihS, rightMulB_M, denoteB_M]
-  | _ => simp [diagonalB, diagonal, denoteB_M]
+    simp [diagonalB, diagonal, lrDiagB, ihS, rightMulB_M, denoteB_M]
+  | _ => simp [diagonalB, diagonal, diagOfB, denoteB_M]
 
 /-! ### Decidability (the driver decides `WF` before trusting any checked data) -/
 
@@ -268,8 +235,7 @@ instance {m n : ℕ} (e : MExpr K m n) : Decidable (HasDet e) := HasDet.dec e
 
 /-- `IsSymm` decided on values. -/
 def IsSymm.dec [DecidableEq K] {n : ℕ} (e : MExpr K n n) : Decidable (IsSymm e) :=
-  let D := denoteB e
-  decidable_of_iff ((⟨D.Mᵀ⟩ : MatBox n n K).M = D.M) (by simp [IsSymm, D, denoteB_M])
+  decidable_of_iff ((transposeB (denoteB e)).M = (denoteB e).M) (by simp [IsSymm, transposeB, denoteB_M])
 
 instance [DecidableEq K] {n : ℕ} (e : MExpr K n n) : Decidable (IsSymm e) := IsSymm.dec e
 
@@ -301,17 +267,11 @@ def WF.dec [DecidableEq K] : {m n : ℕ} → (e : MExpr K m n) → Decidable (WF
   | _, _, lowRank _ s U V S Kin C =>
       have := WF.dec U; have := WF.dec V; have := WF.dec S; have := WF.dec Kin; have := WF.dec C
       have : Decidable (denote C = denote (inv Kin) + (s.val : K) • (denote V * denote (inv S) * denote U)) :=
-        let dC := denoteB C
-        let dKi := denoteB (inv Kin)
-        let dV := denoteB V
-        let dSi := denoteB (inv S)
-        let dU := denoteB U
-        let rhs := boxForce (dKi.M + (s.val : K) • (dV.M * dSi.M * dU.M))
-        decidable_of_iff (dC.M = rhs.M) (by simp [dC, dKi, dV, dSi, dU, rhs, denoteB_M])
+        decidable_of_iff ((denoteB C).M = (addB (denoteB (inv Kin)) (smulB (s.val : K)
+            (mulB (mulB (denoteB V) (denoteB (inv S))) (denoteB U)))).M)
+          (by simp [addB, smulB, mulB, denoteB_M])
       have : Decidable (denote V = (denote U)ᵀ) :=
-        let dV := denoteB V
-        let dU := denoteB U
-        decidable_of_iff (dV.M = (⟨dU.Mᵀ⟩ : MatBox _ _ K).M) (by simp [dV, dU, denoteB_M])
+        decidable_of_iff ((denoteB V).M = (transposeB (denoteB U)).M) (by simp [transposeB, denoteB_M])
       by unfold WF; infer_instance
 
 instance [DecidableEq K] {m n : ℕ} (e : MExpr K m n) : Decidable (WF e) := WF.dec e
